@@ -147,7 +147,8 @@ def prior_case(draw):
   opt = draw(st.sampled_from(['identity', 'covariance', 'random', 'array', 'array-diagonal', 'array-int', 'array-f32', 'array-singular', 'array-asym',
                               'array-shape', 'array-indefinite', 'covariance-singular', 'bad-string']))
   return dict(kind='prior', est=name, desc=desc, opt=opt, seed=draw(st.integers(0, 10 ** 6)),
-              aseed=draw(st.integers(0, 999)), cond=draw(st.sampled_from([1.0, 1e2, 1e4, 1e6])))
+              aseed=draw(st.integers(0, 999)), cond=draw(st.sampled_from([1.0, 1e2, 1e4, 1e6])),
+              coarse=draw(st.integers(0, 3)) == 0)
 
 
 def oracle_prior(opt, d, points, seed, arr):
@@ -204,6 +205,10 @@ def check_prior(case, stats):
   if arr is not None and case['aseed'] % 2 == 1:
     arr = np.asfortranarray(arr)           # same matrix, column-major memory layout
   X = data.X.copy()
+  if case.get('coarse'):
+    # points on a coarse grid: distinct training points share single coordinates, tuples share points
+    step = float(np.abs(X).max()) / 4.0
+    X = np.round(X / step) * step
   if opt == 'covariance-singular':
     X[:, -1] = X[:, 0] * 2.0       # linearly dependent feature -> singular covariance
   if kind == 'pairs':
@@ -212,6 +217,23 @@ def check_prior(case, stats):
   else:
     T = X[data.quads_idx]
     yy = None
+  if case.get('coarse'):
+    members = [(0, 1)] if kind == 'pairs' else [(0, 1), (2, 3)]
+    # tuples whose compared pair collapsed under the rounding are dropped (zero distance: outside the learners' domain)
+    keep = np.ones(len(T), dtype=bool)
+    for a_, b_ in members:
+      keep &= np.abs(T[:, a_] - T[:, b_]).max(axis=1) > 0
+    T = T[keep]
+    if yy is not None:
+      yy = np.asarray(yy)[keep]
+    if len(T) < 4 or (yy is not None and len(set(yy.tolist())) < 2):
+      raise Discard('rounding to the coarse grid collapsed too many tuples')
+  if case.get('coarse') and opt == 'covariance':
+    Xu = np.unique(T.reshape(-1, d), axis=0)
+    wc = np.linalg.eigvalsh(np.atleast_2d(np.cov(Xu, rowvar=False))) if len(Xu) > 1 else np.zeros(1)
+    if wc.min() <= 1e-6 * max(wc.max(), 1e-300):
+      raise Discard('coarse grid made the covariance of the distinct points (nearly) singular')
+    stats.classes['prior:covariance-on-coarse-grid'] += 1
   value = {'bad-string': 'not-an-option', 'covariance-singular': 'covariance'}.get(opt, arr if arr is not None else opt)
   base = dict(preprocessor=None)
   if name == 'LSML':
